@@ -87,7 +87,8 @@ def check_case(case, ctr):
                 if len(q) > 2 and len(q) != length:
                     pass
                 elif ctx[q2] != got or lat[q2] is not lat[q] or (axis == 'p' and lat(q2) is not lat(q)) \
-                        or ctx[list(q)] != got:
+                        or ctx[list(q)] != got or ctx[frozenset(q)] != got \
+                        or lat[frozenset(q)] is not lat[q] or lat[dict.fromkeys(q).keys()] is not lat[q]:
                     bad('query-repeats-order', q2, got, ctx[q2])
                     return V
                 else:
